@@ -143,6 +143,7 @@ func fqkGet(m meta.Definition, container map[string]interface{}) (interface{}, b
 	v, found := container[m.Ident()]
 	if !found {
 		mod := meta.OriginalModule(m)
+		mod = meta.BelongsToModule(mod)
 		v, found = container[fmt.Sprintf("%s:%s", mod.Ident(), m.Ident())]
 	}
 	return v, found
